@@ -16,6 +16,7 @@ CRASH_EXIT = 77
 
 KINDS_OPEN = ("crash_before", "crash_after_create", "crash_mid_write", "err_open", "err_write")
 KINDS_OTHER = ("crash_before", "err_op")
+KINDS_READ = ("err_open",)  # a crash before a read leaves the same disk state as a crash before the next mutation
 
 
 class _WProxy:
@@ -54,8 +55,9 @@ class _WProxy:
 
 
 class FaultFS:
-    def __init__(self, roots):
+    def __init__(self, roots, reads=False):
         self.roots = tuple(os.path.realpath(r) for r in roots)
+        self.reads = reads  # also give read-mode opens an index in the op log (kind "open-r")
         self.log = []
         self.plan = {}
         self.fired = set()
@@ -101,6 +103,9 @@ class FaultFS:
 
         def vf_open(file, mode="r", *a, **kw):
             rel = fs.under(file) if not isinstance(file, int) else None
+            if rel is not None and fs.reads and not any(c in mode for c in "wax+"):
+                fs._op("open-r", rel)
+                return real_open(file, mode, *a, **kw)
             if rel is None or not any(c in mode for c in "wax+"):
                 return real_open(file, mode, *a, **kw)
             idx, f = fs._op("open-w", rel)
